@@ -5,14 +5,16 @@
      memory (commit_shape: PUT node/nn (ONode (h_tree h)));
    - a commit when nothing changed issues no request at all;
    - stored objects are immutable: a name denotes one content for ever, across any history;
-   - keys stay strictly increasing under insert, delete and merge (wf);
+   - keys stay strictly increasing under insert, delete and merge (wf) — also in the node-level
+     tree of several levels (Mast.v): splitting, growing, shrinking and merging nodes keep the
+     in-order contents, so what is stored is the sorted map the writer had;
    - the node codec returns exactly what was encoded (keys, values, child links including
      absent ones) for every node whose links are absent or non-empty names; the decoder as it
      was before fix c8c943e is refuted.
    Only [exact lemma] statements followed by Print Assumptions. *)
 From Coq Require Import ZArith List Bool.
-From S3db Require Import Base KeyOrder RowMerge Tree Store KvProto Inst NodeCodec.
-From S3db.proofs Require Import KeyOrderProofs TreeProofs ProtoProofs ExecProofs CommitProofs NamedProofs NodeCodecProofs.
+From S3db Require Import Base KeyOrder RowMerge Tree Store KvProto Inst NodeCodec Mast.
+From S3db.proofs Require Import KeyOrderProofs TreeProofs ProtoProofs ExecProofs CommitProofs NamedProofs NodeCodecProofs MastProofs.
 Import ListNotations.
 Open Scope Z_scope.
 
@@ -53,6 +55,20 @@ Theorem C16_insert_keeps_keys_increasing k (v : V) t : D k -> wf t -> wf (t_inse
 Proof. exact (insert_wf k v t). Qed.
 Theorem C16_delete_keeps_keys_increasing k (t : tree V) : wf t -> wf (t_delete k t).
 Proof. exact (delete_wf k t). Qed.
+
+(* the node-level tree: rebuilding nodes never changes the in-order contents *)
+Theorem C16_growing_a_tree_keeps_its_contents promote (n : mt V) : flat (grow_node promote n) = flat n.
+Proof. exact (flat_grow promote n). Qed.
+Theorem C16_shrinking_a_tree_keeps_its_contents (n : mt V) : flat (shrink_node n) = flat n.
+Proof. exact (flat_shrink n). Qed.
+Theorem C16_splitting_a_node_keeps_its_contents (n : mt V) k a b : D k -> wf (flat n) ->
+  split k n = Some (a, b) -> flat a ++ flat b = flat n /\ below k (flat a) /\ all_above k (flat b).
+Proof. exact (proj1 split_flat n k a b). Qed.
+Theorem C16_multilevel_insert_keeps_keys_increasing (m m' : mast V) k v : D k -> wf (mast_flat m) ->
+  mast_insert m k v = Some m' ->
+  mast_flat m' = t_insert k v (mast_flat m) /\ wf (mast_flat m') /\
+  m_size m' = (if t_get k (mast_flat m) then m_size m else m_size m + 1).
+Proof. exact (mast_insert_refines m m' k v). Qed.
 End C16.
 
 Theorem C16_node_codec_roundtrip n : links_ok n -> node_roundtrip n = n.
@@ -72,3 +88,7 @@ Print Assumptions C16_delete_keeps_keys_increasing.
 Print Assumptions C16_node_codec_roundtrip.
 Print Assumptions C16_node_codec_keeps_shape.
 Print Assumptions C16_old_decoder_refuted.
+Print Assumptions C16_growing_a_tree_keeps_its_contents.
+Print Assumptions C16_shrinking_a_tree_keeps_its_contents.
+Print Assumptions C16_splitting_a_node_keeps_its_contents.
+Print Assumptions C16_multilevel_insert_keeps_keys_increasing.
